@@ -3,25 +3,31 @@ from vlib import Case
 
 PROP_FILE = "Properties/C09.v"
 RULE = ("cases = op lists over WRITE len, EXTEND max, PICK cap flow blk (predicate = Some(cap) below offset blk, None from blk on), "
-        "ACK s e, LOSS s e (ranges drawn from earlier picks, also split / joined / repeated / after loss / after ack / already shifted / empty / inverted), "
-        "RESEND, FORGET on SendBuf::with_capacity(cfg); non-trivial = at least 2 successful picks, at least one loss report followed by a "
+        "ACK s e, LOSS s e (ranges drawn from earlier picks, also split / joined / repeated / after loss / after ack / already shifted / empty / inverted / "
+        "reaching into or lying in the never-sent part / of picks made before a FORGET = frames of a rejected 0-RTT packet), "
+        "RESEND, FORGET on SendBuf::with_capacity(cfg); a directed family plays 0-RTT rejection (picks, FORGET, EXTEND to the new window, stale reports of the "
+        "old picks interleaved with new picks and their acknowledgements); non-trivial = at least 2 successful picks, at least one loss report followed by a "
         "pick that re-offers a lost byte, and at least one acknowledgement whose start or end is not a boundary of any earlier pick "
         "(evaluated on a byte-level replay of the op list); distinct by hash of the op list")
 TRUSTED_BASE = ["model coq/Model/SendBuf.v restates BufMap's in-place index surgery (binary search, drain_start/drain_end, same_before/"
                 "same_after) as list surgery on the raw boundary list; equality with the Rust (raw boundary deque included, via the "
                 "cfg(gmquic_verif) dump hook) is checked by stream `sndbuf` after every operation, not proved",
-                "debug profile only: debug_assert!/overflow panics of the Rust are the model's explicit PV outcome; the harness turns the "
-                "caught panic into the observation -1 and refuses pick capacity 0 itself"]
+                "debug profile only: debug_assert!/overflow panics of the Rust (window reduced, position overflow, u64 overflow in pick) are the model's "
+                "explicit PV outcome; the harness turns the caught panic into the observation -1 and refuses pick capacity 0 itself. Acknowledgements and loss "
+                "reports have no precondition any more (finding F70 repaired: SendBuf cuts the range down to its sent part, c09_report_total)"]
 MODELLED = ("qrecovery/src/send/sndbuf.rs: BufMap::{extend_to,sent,pick,ack_rcvd,shift,may_loss,may_lost_from,resend_flighting,same_before,"
             "same_after,merge_after}, SendBuf::{with_capacity,write,extend,forget_sent_state,written,sent,remaining_mut,pick_up,on_data_acked,"
             "may_loss_data,resend_flighting,is_all_rcvd}; the data deque is modelled as base offset + retained length over position-derived content")
 ASSUMPTIONS = ["written data is position-derived content (only lengths matter to SendBuf)",
                "pick predicates return None or Some(n>=1) (true of StreamFrame/CryptoFrame::estimate_max_capacity)",
                "forget_sent_state is only used before any byte was acknowledged (0-RTT rejection); outside that class see finding F28",
+               "a server that rejected 0-RTT does not acknowledge 0-RTT packets (it has no keys to read them). SendBuf ignores the part of such an "
+               "acknowledgement that covers bytes not sent again yet; for bytes that were already sent again the late acknowledgement of the rejected copy is "
+               "indistinguishable from an acknowledgement of the new copy at this layer (the sent journal keeps the 0-RTT records) - peer misbehaviour only",
                "Bytes / VecDeque behave as documented; usize = u64"]
 
 MANIFEST = {
-    "text": "Machine-checked Coq theorems (Properties/C09.v) over an executable model of BufMap + SendBuf: for every operation list (writes, window extensions, pick-ups with any capacity / flow limit / congestion block, acknowledgements and loss reports of any range that passes the debug assertions (empty and inverted ranges are ignored), resend_flighting, forget_sent_state) the boundary list stays well formed with Pending as a suffix, each operation refines its pointwise colour specification, every byte in [offset, written) is retained with offset = first unacknowledged byte, a pick returns a non-empty range (for every operation list, c09_pick_nonempty) inside the window that was uniformly Pending or Lost and is Flighting afterwards together with exactly the written bytes, fresh <-> Pending, the fresh lengths add up to sent(), lost bytes are re-offered, and is_all_rcvd holds exactly when everything written is acknowledged. The model is tied to the Rust by running the extracted model and the real SendBuf on the same op lists every run and comparing the raw boundary deque and all public observations after every operation; the property is also evaluated by a byte-level Python oracle on the implementation's observations.",
+    "text": "Machine-checked Coq theorems (Properties/C09.v) over an executable model of BufMap + SendBuf: for every operation list (writes, window extensions, pick-ups with any capacity / flow limit / congestion block, acknowledgements and loss reports of ANY range - only the part that has been sent since the last forget_sent_state is acted on, so that reports about frames of a rejected 0-RTT packet are harmless (finding F70, repaired: such a report used to fail BufMap's `covered Pending parts` assertion in debug builds and to corrupt the colour map in release builds); empty and inverted ranges are ignored -, resend_flighting, forget_sent_state) the boundary list stays well formed with Pending as a suffix, each operation refines its pointwise colour specification, every byte in [offset, written) is retained with offset = first unacknowledged byte, a pick returns a non-empty range (for every operation list, c09_pick_nonempty) inside the window that was uniformly Pending or Lost and is Flighting afterwards together with exactly the written bytes, fresh <-> Pending, the fresh lengths add up to sent(), lost bytes are re-offered, no acknowledgement or loss report can fail (c09_report_total) and each recolours exactly the sent part of its range (c09_report_ack / c09_report_loss; after a 0-RTT rejection every report is a no-op until data is sent again, c09_forget_then_reports), and is_all_rcvd holds exactly when everything written is acknowledged. The model is tied to the Rust by running the extracted model and the real SendBuf on the same op lists every run and comparing the raw boundary deque and all public observations after every operation; the property is also evaluated by a byte-level Python oracle on the implementation's observations.",
     "note": "Trusted: Coq kernel, extraction (ExtrOcamlBasic only), OCaml driver, Rust harness, Python generators/oracle, the read-only hook SendBuf::verif_colours. The model restates the index arithmetic as list surgery; equality is checked by correspondence (raw boundaries), not proved. Debug profile only (debug_assert = PV outcome). Statements about retained data are conditional on forget_sent_state not being used after an acknowledgement (finding F28 otherwise).",
     "technique": "Coq proof (invariant over operation lists + refinement of every op to a pointwise colour spec) + differential correspondence model/implementation",
 }
@@ -115,19 +121,19 @@ class Sim:
             self.col[i] = F
 
     def range_legal(self, s, e):
-        """the Rust's debug assertions for on_data_acked / may_loss_data; empty (end <= start) ranges are ignored"""
-        if e <= s:
-            return True
-        return e <= self.sent()
+        """acknowledgements and loss reports have no precondition (finding F70 repaired): the part of the range that is not
+        in flight - never sent, or forgotten when 0-RTT was rejected - is ignored; empty (end <= start) ranges too"""
+        return True
+
+    def in_flight(self, i):
+        return i < self.size and self.col[i] in (F, L, R)
 
     def ack(self, s, e):
-        if not self.range_legal(s, e):
-            return False
-        if e <= s:
-            return True
-        for i in range(s, e):
-            self.col[i] = R
-            self.acked[i] = 1
+        """byte-wise: an acknowledgement only concerns bytes that have been sent since the last forget"""
+        for i in range(s, min(e, self.written)):
+            if self.in_flight(i):
+                self.col[i] = R
+                self.acked[i] = 1
         b = 0
         while b < self.size and self.col[b] == R:
             b += 1
@@ -136,14 +142,14 @@ class Sim:
         return True
 
     def loss(self, s, e):
-        if not self.range_legal(s, e):
-            return False
-        if e <= s:
-            return True
-        for i in range(s, e):
-            if self.col[i] == F:
+        for i in range(s, min(e, self.written)):
+            if self.col[i] == F and i < self.size:
                 self.col[i] = L
         return True
+
+    def stale(self, s, e):
+        """does the range s..e touch a byte that is not in flight (never sent / forgotten)?"""
+        return e > s and (e > self.sent())
 
     def resend(self):
         for i in range(self.size):
@@ -336,9 +342,11 @@ def replay_sim(case):
                 sim.apply_pick(r[0], r[1])
                 r = r + (lost,)
         elif tag == 3:
-            r = sim.ack(*a)
+            r = "stale" if sim.stale(*a) else True
+            sim.ack(*a)
         elif tag == 4:
-            r = sim.loss(*a)
+            r = "stale" if sim.stale(*a) else True
+            sim.loss(*a)
         elif tag == 5:
             sim.resend()
         elif tag == 6:
@@ -363,11 +371,11 @@ def nontrivial(case):
                 repick = True
             bounds.add(r[0])
             bounds.add(r[1])
-        elif tag == 4 and r is True and a[0] < a[1]:
+        elif tag == 4 and r in (True, "stale") and a[0] < a[1]:
             loss_seen = True
         elif tag == 5:
             loss_seen = True
-        elif tag == 3 and r is True and a[0] < a[1]:
+        elif tag == 3 and r in (True, "stale") and a[0] < a[1]:
             if a[0] not in bounds or a[1] not in bounds:
                 misaligned = True
     return picks >= 2 and repick and misaligned
@@ -382,12 +390,25 @@ def hist(case):
     lab.append("ops:%s" % ("<=6" if len(case.ops) <= 6 else "<=20" if len(case.ops) <= 20 else "21+"))
     acked_ranges = []
     lost_ranges = []
+    forgot = False
+    old_picks = []
+    cur_picks = []
     for tag, a, r in tr:
         n = names[tag] if tag < 7 else "?"
         if r is False or r == "pv":
             lab.append("pv:" + n)
             continue
         lab.append("op:" + n)
+        if tag == 6:
+            forgot = True
+            old_picks += cur_picks
+            cur_picks = []
+        if tag == 2 and isinstance(r, tuple):
+            cur_picks.append((r[0], r[1]))
+        if tag in (3, 4) and r == "stale":
+            lab.append(n + ":not-in-flight")          # the range reaches into (or lies in) the never-sent part
+            if forgot and any(s2 < a[1] and a[0] < e2 for s2, e2 in old_picks):
+                lab.append(n + ":of-forgotten-pick")  # a frame of a rejected 0-RTT packet
         if tag == 2:
             if r is None:
                 lab.append("pick:refused")
@@ -431,9 +452,10 @@ def gen_one(rng, name):
         cap = rng.choice([0, 1, 2 ** 32, 2 ** 62 - 1, 2 ** 63])
     sim = Sim(cap)
     ops = []
-    picks = []     # predicted (s, e)
+    picks = []     # predicted (s, e) since the last forget
+    stale_picks = []   # picks made before a forget: their frames are still in the sent journal (rejected 0-RTT)
     nops = rng.randint(3, 40)
-    pv_ok = rng.random() < 0.06        # this case may contain one precondition violation
+    pv_ok = rng.random() < 0.10        # this case may contain reports beyond sent() / beyond written and one precondition violation (window reduced, capacity 0)
     forget_ok = rng.random() < 0.08
     crypto = rng.random() < 0.15       # crypto-stream style: flow usize::MAX, resend_flighting used
     to_write = total
@@ -452,6 +474,12 @@ def gen_one(rng, name):
             x = rng.randint(0, sim.written + 2)      # an empty or inverted range anywhere: ignored by the buffer
             return x, rng.randint(0, x)
         r = rng.random()
+        if stale_picks and r < 0.35:
+            s, e = rng.choice(stale_picks)          # a report about a frame of the forgotten epoch, as it was sent
+            if rng.random() < 0.3 and e - s >= 2:
+                m = rng.randint(s + 1, e - 1)
+                s, e = (s, m) if rng.random() < 0.5 else (m, e)
+            return s, e
         if picks and r < 0.75:
             s, e = rng.choice(picks)
             q = rng.random()
@@ -544,6 +572,7 @@ def gen_one(rng, name):
             sim.resend()
         elif tag == 6:
             sim.forget()
+            stale_picks += picks
             picks = []
         if not ok:
             if rng.random() < 0.7:
@@ -586,7 +615,11 @@ def gen_exhaustive(Lb, depth, prefix, setups, caps=(1, 2), with_resend=True, lim
 
     def apply(sim, op):
         tag, a = op
-        if tag == 2:
+        if tag == 1:
+            sim.extend(a[0])
+        elif tag == 6:
+            sim.forget()
+        elif tag == 2:
             p = sim.predict_pick(*a)
             if isinstance(p, tuple):
                 sim.apply_pick(p[0], p[1])
@@ -631,16 +664,106 @@ def setups_for(Lb):
         [w, p(2), p(2)],                             # part in flight, part pending
         [w, p(Lb), (4, [1, Lb - 1]), (3, [0, 1])],   # R L F
         [w, p(Lb), (4, [0, 2]), (4, [3, Lb]), (5, [])] if Lb >= 4 else [w, p(Lb), (5, [])],   # unmerged Lost neighbours
+        [w, p(Lb), (6, []), (1, [Lb]), p(1)],        # 0-RTT rejection: everything forgotten, one byte sent again
     ]
+
+
+def gen_rejection(rng, n, prefix):
+    """0-RTT rejection as the connection plays it (finding F70): data written and partly sent under the remembered window
+    (a few picks = the STREAM frames of the 0-RTT packets, possibly one lost and re-sent), then forget_sent_state + extend to
+    the server's window (smaller or larger), then - interleaved - the loss reports (always, that is what loss detection does
+    with the rejected packets) and sometimes acknowledgements (a misbehaving server) of the OLD frames, whole / split / joined,
+    new picks with other capacities, acknowledgements and losses of the new picks, more writes; finally everything is
+    sent and acknowledged"""
+    out = []
+    for i in range(n):
+        total = rng.choice([rng.randint(2, 12), rng.randint(13, 200), rng.randint(201, 1500)])
+        cap0 = rng.choice([total, total + 5, max(1, total // 2), max(1, total - 1)])
+        sim = Sim(cap0)
+        first = rng.randint(1, total)
+        ops = [(0, [first])]
+        sim.write(first)
+        old = []
+        flow = 2 ** 64 - 1 if rng.random() < 0.5 else max(1, total // 2)
+        for _ in range(rng.randint(1, 4)):
+            op = (2, [rng.choice([1, 2, 3, max(1, total // 3), total]), flow, BIG])
+            pr = sim.predict_pick(*op[1])
+            ops.append(op)
+            if isinstance(pr, tuple):
+                sim.apply_pick(pr[0], pr[1])
+                old.append((pr[0], pr[1]))
+            if old and rng.random() < 0.2:
+                rg = rng.choice(old)
+                ops.append((4, list(rg)))
+                sim.loss(*rg)
+        if first < total and rng.random() < 0.5:
+            ops.append((0, [total - first]))
+            sim.write(total - first)
+        ops.append((6, []))
+        sim.forget()
+        neww = rng.choice([0, 1, max(1, total // 3), total, total + 7, 2 ** 40])
+        ops.append((1, [neww]))
+        sim.extend(neww)
+        new = []
+        for _ in range(rng.randint(3, 14)):
+            r = rng.random()
+            if r < 0.40 and old:
+                s0, e0 = rng.choice(old)
+                q = rng.random()
+                if q < 0.2 and e0 - s0 >= 2:
+                    m = rng.randint(s0 + 1, e0 - 1)
+                    s0, e0 = (s0, m) if rng.random() < 0.5 else (m, e0)
+                elif q < 0.35:
+                    s1, e1 = rng.choice(old)
+                    s0, e0 = min(s0, s1), max(e0, e1)
+                op = (4 if rng.random() < 0.7 else 3, [s0, e0])
+            elif r < 0.75:
+                op = (2, [rng.choice([1, 2, 5, max(1, total // 4), total + 1]), rng.choice([1, 3, total + 1, 2 ** 64 - 1]), BIG])
+            elif r < 0.87 and new:
+                rg = rng.choice(new)
+                op = (3 if rng.random() < 0.7 else 4, list(rg))
+            elif r < 0.93:
+                op = (1, [sim.max_data + rng.choice([1, 5, total])])
+            elif sim.written < total:
+                op = (0, [total - sim.written])
+            else:
+                op = (5, [])
+            ops.append(op)
+            t, a = op
+            if t == 0:
+                sim.write(a[0])
+            elif t == 1:
+                sim.extend(a[0])
+            elif t == 2:
+                pr = sim.predict_pick(*a)
+                if isinstance(pr, tuple):
+                    sim.apply_pick(pr[0], pr[1])
+                    new.append((pr[0], pr[1]))
+            elif t == 3:
+                sim.ack(*a)
+            elif t == 4:
+                sim.loss(*a)
+            elif t == 5:
+                sim.resend()
+        if sim.written < total:
+            ops.append((0, [total - sim.written]))
+        ops.append((1, [max(sim.max_data, total + 1)]))
+        for _ in range(3):
+            ops.append((2, [total + 1, total + 1, BIG]))
+        ops.append((3, [0, total]))
+        out.append(Case("%s%d" % (prefix, i), ops, cfg=[cap0]))
+    return out
 
 
 def gen(rng, tier):
     if tier == "quick":
-        return (gen_exhaustive(4, 2, "ex4-", setups_for(4)) + gen_exhaustive(3, 3, "ex3-", setups_for(3)[:3], caps=(1,))
-                + gen_random(rng, 6000, "r"))
+        s3 = setups_for(3)
+        return (gen_exhaustive(4, 2, "ex4-", setups_for(4)) + gen_exhaustive(3, 3, "ex3-", s3[:3] + s3[4:], caps=(1,))
+                + gen_rejection(rng, 1500, "rej") + gen_random(rng, 6000, "r"))
+    s3 = setups_for(3)
     return (gen_exhaustive(6, 3, "ex6-", setups_for(6)) + gen_exhaustive(4, 4, "ex4-", setups_for(4), caps=(1,))
-            + gen_exhaustive(3, 5, "ex3-", setups_for(3)[:2], caps=(1,), limit=150000)
-            + gen_random(rng, 40000, "r"))
+            + gen_exhaustive(3, 5, "ex3-", s3[:2] + s3[4:], caps=(1,), limit=200000)
+            + gen_rejection(rng, 15000, "rej") + gen_random(rng, 40000, "r"))
 
 
 def mutate(rng, case, j):
